@@ -106,3 +106,75 @@ def observe_parse(src):
     res['lua'] = l
     res['parse'] = 'OK %d %s' % (l.root.end_pos, dump_tree(l.root, l.tokens))
     return res
+
+
+# ----------------------------------------------------------------------------- AST writers (C09 C10)
+_instr_cache = {}
+
+
+def instrumented(base):
+    """Subclass of an AST writer class that records, without changing behaviour, one event per call of
+    _get_code_for_spaces  ('V', start_pos, _indent, at_end, run length)  and one per cursor advance outside it
+    ('C', index of the token passed).  The instance registers itself in cls.instances."""
+    if base in _instr_cache:
+        return _instr_cache[base]
+
+    class W(base):
+        instances = []
+
+        def __init__(self, *a, **k):
+            self.__dict__['_ev'] = []
+            self.__dict__['_in_sp'] = False
+            self.__dict__['_pos_v'] = None
+            super().__init__(*a, **k)
+            W.instances.append(self)
+
+        @property
+        def _pos(self):
+            return self.__dict__['_pos_v']
+
+        @_pos.setter
+        def _pos(self, v):
+            old = self.__dict__['_pos_v']
+            if not self.__dict__['_in_sp'] and old is not None and v is not None and v == old + 1:
+                self.__dict__['_ev'].append(('C', old))
+            self.__dict__['_pos_v'] = v
+
+        def _get_code_for_spaces(self, node):
+            start = self._pos
+            self.__dict__['_in_sp'] = True
+            try:
+                r = super()._get_code_for_spaces(node)
+            finally:
+                self.__dict__['_in_sp'] = False
+            self.__dict__['_ev'].append(('V', start, self._indent, self._pos == len(self._tokens), self._pos - start))
+            return r
+    W.__name__ = 'Instrumented' + base.__name__
+    _instr_cache[base] = W
+    return W
+
+
+def enc_events(ev):
+    return ','.join('V%d:%d:%d:%d' % (e[1], e[2], 1 if e[3] else 0, e[4]) if e[0] == 'V' else 'C%d' % e[1] for e in ev) or '-'
+
+
+def observe_write(l, width):
+    """l: a Lua object; width < 0: LuaASTEchoWriter, else LuaFormatterWriter with indentwidth = width.
+    -> {'res': 'OK' | 'ERR <name>', 'text': bytes, 'events': str, 'out_enc': str | None (output not lexable)}"""
+    from pico8.lua import lua
+    base = lua.LuaASTEchoWriter if width < 0 else lua.LuaFormatterWriter
+    W = instrumented(base)
+    del W.instances[:]
+    args = None if width < 0 else {'indentwidth': width}
+    try:
+        text = b''.join(l.to_lines(writer_cls=W, writer_args=args))
+    except RecursionError:
+        return {'res': 'ERR RecursionError'}
+    except Exception as e:  # noqa
+        return {'res': 'ERR ' + lib.exc_name(e), 'events': enc_events(W.instances[-1]._ev) if W.instances else '-'}
+    o = {'res': 'OK', 'text': text, 'events': enc_events(W.instances[-1]._ev)}
+    try:
+        o['out_enc'] = enc_tokens(lex(text))
+    except Exception:  # noqa
+        o['out_enc'] = None
+    return o
